@@ -75,7 +75,7 @@ func c11Check(env *core.Env, tree *gen.Expr, seed uint64, label string) {
 	min := gen.Join(tree.Tokens(false))
 	full := gen.Join(tree.Tokens(true))
 	rng := core.NewRng(seed, "c11-decor", label)
-	variants := []struct{ name, src string }{{"min", min}, {"full", full}}
+	variants := []struct{ name, src string }{{"min", min}, {"full", full}, {"full-atoms", gen.Join(tree.TokensAtoms())}}
 	for i := 0; i < 3; i++ {
 		variants = append(variants, struct{ name, src string }{fmt.Sprintf("min-decorated-%d", i), gen.Decorate(tree.Tokens(false), rng)})
 	}
@@ -182,7 +182,7 @@ func c11Check(env *core.Env, tree *gen.Expr, seed uint64, label string) {
 			env.Distinct(min)
 		}
 		c11Trailing(env, min, co)
-		env.SampleSpread(min, map[string]string{"min": min, "full": full, "decorated": variants[2].src, "result": trunc(base[0].Short(), 80)})
+		env.SampleSpread(min, map[string]string{"min": min, "full": full, "decorated": variants[3].src, "result": trunc(base[0].Short(), 80)})
 	}
 }
 
